@@ -477,6 +477,12 @@ func sleepOrDone(doneChan <-chan struct{}, interval time.Duration) bool {
 	}
 }
 
+// resultsFinished returns true if no further output will be recorded for a unit in the given
+// WorkState: it has completed, or it was cancelled.
+func resultsFinished(workState int) bool {
+	return IsComplete(workState) || workState == WorkStateCanceled
+}
+
 // GetResults returns a live stream of the results of a unit.
 func (w *Workceptor) GetResults(ctx context.Context, unitID string, startPos int64) (chan []byte, error) {
 	unit, err := w.findUnit(unitID)
@@ -510,7 +516,7 @@ func (w *Workceptor) GetResults(ctx context.Context, unitID string, startPos int
 			switch {
 			case err == nil:
 			case os.IsNotExist(err):
-				if IsComplete(unit.Status().State) {
+				if resultsFinished(unit.Status().State) {
 					w.nc.GetLogger().Warning("Unit completed without producing any stdout\n")
 
 					return
@@ -593,7 +599,7 @@ func (w *Workceptor) GetResults(ctx context.Context, unitID string, startPos int
 			}
 			if err == io.EOF {
 				unitStatus := unit.Status()
-				if IsComplete(unitStatus.State) && filePos >= unitStatus.StdoutSize {
+				if resultsFinished(unitStatus.State) && filePos >= unitStatus.StdoutSize {
 					w.nc.GetLogger().Debug("Stdout complete - closing channel for: %s \n", unitID)
 
 					return
